@@ -34,6 +34,37 @@ func (m c09Model) String() string {
 
 var supportedActions = map[string]bool{"ACTION_FEE": true, "ACTION_SWAP": true}
 
+// actionAlias: spellings of a supported action that the property does not oblige the module to accept or to
+// refuse (the protobuf enum NUMBER). If such a message succeeds it must act as the action it denotes; if it
+// fails it must change nothing.
+var actionAlias = map[string]string{"1": "ACTION_FEE", "2": "ACTION_SWAP"}
+
+// onlySupportedActions: the queries are compared with the model on the actions a payload can contain; whether an
+// identifier that no payload can carry (ACTION_UNSUPPORTED, unknown names) may itself be recorded is left open.
+func onlySupportedActions(in []string) []string {
+	var out []string
+	for _, a := range in {
+		if supportedActions[a] {
+			out = append(out, a)
+		}
+	}
+	return out
+}
+
+// applyAction: the successor of m after a SUCCESSFUL (un)pause of the canonical action a.
+func (m c09Model) applyAction(rpc, a string) c09Model {
+	n := c09Model{A: map[string]bool{}, P: m.P}
+	for k := range m.A {
+		n.A[k] = true
+	}
+	if rpc == "PauseAction" {
+		n.A[a] = true
+	} else {
+		delete(n.A, a)
+	}
+	return n
+}
+
 func (m c09Model) predict(w *World, s *MsgSpec) (bool, c09Model, bool) {
 	if s.RPC != "PauseAction" && s.RPC != "UnpauseAction" {
 		ok, p, resync := m.P.predict(w, s)
@@ -166,6 +197,9 @@ func checkC09(tier string) *Report {
 		ok, n, resync := m.predict(w, op.Msg)
 		if resync {
 			if op.Msg.RPC == "PauseAction" || op.Msg.RPC == "UnpauseAction" {
+				if a, ok := actionAlias[op.Msg.Action]; ok && op.Msg.Signer == w.Authority && res.Succeeded() {
+					return m.applyAction(op.Msg.RPC, a) // accepted numeric spelling: acts as the action it denotes
+				}
 				return m // redundant or not-fixed action message: whatever its outcome, the paused-action set stays
 			}
 			return c09Model{A: m.A, P: m.P.step(w, op.Msg, res.Succeeded(), post)}
@@ -202,6 +236,7 @@ func checkC09(tier string) *Report {
 		// after a successful message the paused-action set is exactly the model's (a redundant message that
 		// succeeds must have changed nothing)
 		gotA, err := w.QPausedActions(post)
+		gotA = onlySupportedActions(gotA)
 		var wantA []string
 		for k := range qm.(c09Model).A {
 			wantA = append(wantA, k)
@@ -220,6 +255,7 @@ func checkC09(tier string) *Report {
 		rep.Sample(map[string]any{"path": pathLabels(alpha, n.Path), "model": m.String()})
 		// queries = model
 		got, err := w.QPausedActions(ctx)
+		got = onlySupportedActions(got)
 		var want []string
 		for k := range m.A {
 			want = append(want, k)
